@@ -1459,11 +1459,34 @@ def _closure_contract(body: Text, k, spec):
         end = j
         expr = t[i:end]
         wrap = True
-    head = '|' + spec['params'] + '| -> ' + spec['ret']
+    # the contract names the parameters; when /repo calls them differently (a renamed closure parameter), the contract follows
+    def _names(ps):
+        out, d, cur = [], 0, ''
+        for ch in ps + ',':
+            if ch in '([{<':
+                d += 1
+            elif ch in ')]}>':
+                d -= 1
+            if ch == ',' and d == 0:
+                if cur.strip():
+                    out.append(cur.strip())
+                cur = ''
+            else:
+                cur += ch
+        return [re.sub(r'^mut\s+', '', x.split(':')[0].strip()) for x in out]
+    src_names, spec_names = _names(t[a + 1:b]), _names(spec['params'])
+    ren = {}
+    if len(src_names) == len(spec_names) and all(re.fullmatch(r'[A-Za-z_]\w*', n) for n in src_names):
+        ren = {sp: sr for sp, sr in zip(spec_names, src_names) if sp != sr and sr != '_' and not sr.startswith('_')}
+    def _ren(x):
+        for sp, sr in ren.items():
+            x = re.sub(r'\b%s\b' % re.escape(sp), sr, x)
+        return x
+    head = '|' + _ren(spec['params']) + '| -> ' + spec['ret']
     if spec.get('requires'):
-        head += ' requires ' + ', '.join(spec['requires']) + ','
+        head += ' requires ' + ', '.join(_ren(x) for x in spec['requires']) + ','
     if spec.get('ensures'):
-        head += ' ensures ' + ', '.join(spec['ensures']) + ','
+        head += ' ensures ' + ', '.join(_ren(x) for x in spec['ensures']) + ','
     # apply back to front so offsets stay valid
     if wrap:
         body.edit('R11', end, end, ' }', 'closure #%d' % k)
